@@ -219,10 +219,15 @@ def harnesses(tier):
     # stages on which the invariances rest, re-used from the checks that own them: patch i <-> centre i for every arrival
     # order (relabelling / row order), per-patch weight sums and routing of pair counts (relabelling, weight scale)
     from checks.C01 import Accumulate, ProcessPair
+    from checks.C11 import Hdf
     from checks.C12 import LoadPatches
+    from checks.C14 import From3d
 
     hs = [Relabel(3, False), Relabel(3, True), WeightScale(2), TreeBilinearAdditive(), RowOrder(3), LoadPatches(3),
-          ProcessPair(2, 1, "kpc", False), ProcessPair(2, 1, "kpc", True), Accumulate(2, 1, 1, True), Accumulate(2, 1, 1, False)]
+          ProcessPair(2, 1, "kpc", False), ProcessPair(2, 1, "kpc", True), Accumulate(2, 1, 1, True), Accumulate(2, 1, 1, False),
+          # a stored measurement is restored exactly for EVERY real content, however small (weight scale through a file), and
+          # patch centres derived from data are the direction of the mean vector whatever its length (rotation)
+          Hdf(2, 1), From3d()]
     if tier == "thorough":
         hs += [Relabel(4, False), WeightScale(3), RowOrder(4)]
     hs += [Relabel(3, False, wrong="shift"), WeightScale(2, wrong="forgot"), TreeBilinearAdditive(wrong="square")]
